@@ -12,7 +12,14 @@ LEVEL_TEXT = ('Partial. Coq theorems over R, for arbitrary oracles f, f\', about
               '[min,max] of the bracket for any guess and either orientation; a root of a continuous f lies in the final bracket (IVT); '
               'result contract (fuel max_iters suffices, non-NaN <=> converged, NaN without sign change and without an end point meeting r_tol -- whatever f does with NaN --, '
               'end points / clipped guess meeting r_tol returned untouched, an iterate with F = 0 stops the iteration (no 0/0), residual = f(result), why a run reports convergence); bisection halves the bracket; tangent solve and scalar '
-              'implicit-function identity (Coquelicot). The clause "sign change => a root within tolerance is returned" is REFUTED for '
+              'implicit-function identity (Coquelicot). Derivative clause over kernels RE-EXTRACTED from find_root\'s jax.lax.custom_root call on every run '
+              '(tools/vlib/extract_c17.py -> gen/Gen_C17FindRoot.v, fail-closed, whatever syntactic form the tangent solve has): the generated tangent solve returns y/s for EVERY slope s <> 0 '
+              '(no threshold; inverts every linear map, invariant under rescaling of the residual), custom_root\'s forward rule over it gives -f_p/f_x, find_root returns custom_root\'s result untouched '
+              '(identity post-processing, derivative 1 at every point incl. bracket ends), the call is wired to f, x0, rtsafe_(F, X0, bracket, settings), has_aux; so the derivative of find_root\'s output is the rule\'s value = the IFT value, '
+              'also when the returned root IS a bracket end (C17_endpoint_root_derivative). Binary64 (PrimFloat instance of the same model, arbitrary float oracles, IEEE comparison laws of FloatAxioms only): every loop body keeps '
+              '(f xl < 0) = true, (f xh < 0) = false, F = f(root), iterate = a bracket end; a non-NaN result of a bracketed run is converged, carries f(result) and is an end of such a sign-change pair. '
+              'The binary64 LOCATION clause (iterates/result inside [min,max] of the bracket) is REFUTED by executed witnesses (rounded Newton range test accepts a step landing 1.4e-17 below the end 0) and reproduced on rtsafe_ run op by op (known finding F7f, open; not reproduced under XLA CPU compilation). '
+              'The clause "sign change => a root within tolerance is returned" is REFUTED for '
               'the faithful model in exact rational arithmetic (iteration cap) and reproduced on the code (known finding F7, open by design; F7b/F7c/F7d fixed). Binary64 behaviour and the prologue/epilogue are tied by correspondence (bit-exact against eager rtsafe_).')
 TECHNIQUE = 'Coq proof (Reals + Coquelicot) over a state machine built from kernels regenerated from the Python AST; vm_compute/PrimFloat correspondence'
 GEN = ['ScalarRootFind', 'C17FindRoot']
@@ -24,13 +31,19 @@ TRUSTED = ['Coq 8.16.1 kernel + vm_compute (no native_compute)',
            'hand-written prologue/epilogue/while of model/M_C17.v, tied by the correspondence: model at binary64 vs rtsafe_ run eagerly '
            '(discrete outputs exact, floats within 4 ulp) and vs find_root under jit+vmap (tolerance, near-tie runs skipped)',
            'NaN is modelled as None: not-bracketed start (final mask), 0/0 in the Newton branch (unreachable for r_tol >= 0), not converged at the cap',
-           'jax.lax.custom_root applies the tangent solve to the linearised residual; jax.grad of primitives is the derivative']
+           'jax.lax.custom_root applies the tangent solve to the linearised residual (jax/_src/lax/control_flow/solves.py:_root_jvp: solution_dot = -tangent_solve(d_x f at the returned solution, d_p f . p_dot), '
+           'transcribed as model/M_C17d.v:root_jvp and tied at binary64 to jax.jacfwd of find_root); jax.grad of primitives is the derivative',
+           'tools/vlib/extract_c17.py (locates the single custom_root call of find_root, resolves the tangent_solve / solve arguments -- lambda, nested or module-level def, name bound to a lambda --, '
+           'hands the tangent solve and the body of find_root with the call replaced by its result to py2coq; wiring flags are syntactic)']
 ASSUMPTIONS = ['exact real arithmetic in theorems (no overflow/underflow; both the bracket test and the Newton range test compare signs in the source (repo ed1d80c, fd0580b: findings F7d, F7e fixed), which over R is the product test -- lemma sign_product_test; binary64 behaviour for residual magnitudes 1e-200..1e-300 is covered by the correspondence streams)',
-               'f and f\' are total real functions; continuity of f only where stated (IVT); C17_ift assumes the root map is differentiable']
+               'f and f\' are total real functions; continuity of f only where stated (IVT); C17_ift / C17_find_root_derivative assume the root map is differentiable and the returned solutions are roots near p0',
+               'binary64 theorems: f, f\' arbitrary functions float -> float (pure: the same argument gives the same value); no statement about WHERE the iterates lie (refuted)']
 RULE = ('inputs: seeded families (polynomials with 1-3 roots incl. multiple roots, sign(x-c)|x-c|^(1/2^k) steep power laws, rational sigmoid), '
         'brackets of both orientations and widths 1e-3..1e6, guesses inside/outside/at end points, settings max_iters in {5,20,50,100}, '
         'x_tol in {0,1e-13,1e-10,1e-6}, r_tol in {0,1e-12,1e-8}; streams without sign change, with exact end-point roots, with a guess exactly '
-        'at a zero-slope root; a case is non-trivial when the loop runs at least once or an end-point/NaN branch is taken; distinct = distinct input tuples')
+        'at a zero-slope root; linear residuals through a bracket end at 0 whose rounded Newton test accepts an overshooting step (pre-selected by simulating one loop body; model vs eager tie, eager conclusion = finding F7f); '
+        'derivative streams: three parameter families incl. roots exactly on a bracket end, and four families with the residual scaled by 10^k, k = -20..20 (cubic, flat ninth power near a small root, shallow decreasing line, rational sigmoid; '
+        'jax.jacfwd and jax.grad of find_root against -f_a/f_x at rtol 1e-9; model root_jvp at binary64 against jacfwd within 2 ulp); a case is non-trivial when the loop runs at least once or an end-point/NaN branch is taken; distinct = distinct input tuples')
 IMPORTS = ['From OV.model Require Import M_C17.']
 
 PAD = 5     # polynomial coefficient vectors are padded with leading zeros to this length (degree <= 4)
@@ -297,7 +310,7 @@ def gen_cases(ctx):
         want -= 1
         lead = r.choice([1.0, -1.0])           # increasing (xl = 0) or decreasing (xh = 0) residual
         P = [0.0, 0.0, 0.0, lead * sl, lead * -1e-30] + [0.0, 0.0, 0.0, lead * sl]
-        cases.append(dict(kind='poly', P=P, x0=x0, b0=0.0, b1=1.0, mi=50, xt=r.choice([0.25, 0.25, 1e-13]), rt=0.0, stream='end-overshoot'))
+        cases.append(dict(kind='poly', P=P, x0=x0, b0=0.0, b1=1.0, mi=50, xt=r.choice([0.75, 0.75, 1e-13]), rt=0.0, stream='end-overshoot'))
     # smooth monotone functions on wide brackets: Newton must be accepted for the run to finish within the cap
     for _ in range(ctx.n(16, 120)):
         t = r.randrange(3)
@@ -821,7 +834,11 @@ def correspondence(ctx, model_ok):
         # (a) against find_root under jit+vmap: tolerance, and only when the trajectory length agrees (near-tie rule)
         o = comp[i]
         fl, fh, fragile = classify(c)
-        if not fragile:
+        if c['stream'] == 'end-overshoot':
+            # by construction exactly at a switch of the rounded Newton range test (computed factor 0): the compiled path fuses the
+            # multiply-subtract and takes the other branch; this stream is tied bit-for-bit to the op-by-op execution in (b) only
+            ctx.count('range_test_tie_by_construction_compiled_comparison_skipped')
+        elif not fragile:
             if (o[2] == int(mit) or (why == 1 and c['kind'] == 'polyq')) and o[1] == mcv:
                 if not C.close(o[0], mx, rtol=1e-9, atol=1e-12):
                     # ill-conditioned (multiple) roots: the two roots may differ while both residuals are at rounding level
